@@ -3,6 +3,7 @@ pub mod c02;
 pub mod c03;
 pub mod c04;
 pub mod c10;
+pub mod c11;
 pub mod c15;
 pub mod c16;
 pub mod c17;
@@ -24,6 +25,7 @@ pub fn all() -> Vec<Box<dyn Property>> {
         Box::new(refprops::c08()),
         Box::new(refprops::c09()),
         Box::new(c10::C10),
+        Box::new(c11::C11),
         Box::new(refprops::c12()),
         Box::new(refprops::c13()),
         Box::new(refprops::c14()),
